@@ -83,18 +83,19 @@ int KSI_AggregationAuthRec_new(KSI_CTX *ctx, KSI_AggregationAuthRec **out) {
 		goto cleanup;
 
 	}
-	res = KSI_IntegerList_new(&tmp->chainIndexesList);
-	if (res != KSI_OK) {
-		KSI_pushError(ctx, res, NULL);
-		goto cleanup;
-	}
-
+	tmp->chainIndexesList = NULL;
 	tmp->inputHash = NULL;
 	tmp->ctx = ctx;
 	tmp->ref = 1;
 
 	tmp->signatureData = NULL;
 	tmp->aggregationTime = NULL;
+
+	res = KSI_IntegerList_new(&tmp->chainIndexesList);
+	if (res != KSI_OK) {
+		KSI_pushError(ctx, res, NULL);
+		goto cleanup;
+	}
 
 	*out = tmp;
 	tmp = NULL;
